@@ -50,15 +50,25 @@ META = {
     "split_translation; the non-finite branches of split_float/is_almost_int/maybe_zero (and rejection of GeoBoxes with a "
     "non-finite affine coefficient by every operation); list/tuple/generator argument forms of geobox_union_conservative/"
     "geobox_intersection_conservative (a generator is refused with TypeError).  "
-    "NOT mirrored in the anchor files: BoundingBox.to_crs/map_bounds/aoi (pyproj), explore/boundary/qr2sample/__hash__/"
+    "Growth round 3 (same files): enclosing(bbox) in WORLD units on axis-aligned grids (< 1 pixel size per side, theorem "
+    "enclosing_bbox_world_tight); empty geometries (project returns the empty geometry, enclosing is always an error, a "
+    "degenerate grid goes unnoticed); BoundingBox.to_crs with pyproj as a table (smallest box around the images of the ring, "
+    "inverted boxes come back sorted, no CRS -> ValueError) and BoundingBox.boundary (closed edge walk over linspace, "
+    "pts_per_side = 0 -> IndexError; tied where the float32 rounding is exact); non-linear GCPGeoBox operands of | & "
+    "overlap_roi snap_to and the n-ary functions are always refused, never approximated (which exception is raised is not "
+    "judged); functools.reduce of | and & equals geobox_union_conservative / geobox_intersection_conservative for every list "
+    "on a common grid (reduce_or_eq_union, reduce_and_eq_inter).  "
+    "NOT mirrored in the anchor files: BoundingBox.map_bounds/aoi (pyproj), explore/qr2sample/__hash__/"
     "__repr__ (__hash__ coherence with == is an oracle only); Geometry.to_crs beyond the pointwise map (resolution / "
     "wrapdateline / check_and_fix options are never passed by this code; curved edges are the finding K3), shapely itself "
-    "(coordinate order, bounds); enclosing/project for EMPTY geometries; math.py maybe_int/snap_scale/clamp/align_*/snap_affine/"
+    "(coordinate order, bounds); the float32 rounding of BoundingBox.boundary on coordinates that are not float32 numbers "
+    "(oracle with slack only); the reduce == n-ary equality for lists containing operands that are accepted although they are "
+    "OFF the common grid by less than the tolerances (proved for exact common grids; sampled by the float stream); the world-"
+    "coordinate excess bound of enclosing on ROTATED grids (pixel-space theorem only); math.py maybe_int/snap_scale/clamp/align_*/snap_affine/"
     "snap_grid/_snap_edge*/data_resolution_and_offset/affine_from_axis/quasi_random_r2/edge_index/Bin1D/resolve_* "
     "(C08/C14/C17/C20 own them); geobox.py everything outside the set operations (views, zoom, coordinates, GCPGeoBox, "
     "compute_crop with regions, __rmul__, rotate, buffered, footprint, geographic_extent, __dask_tokenize__, svg/html) "
-    "which belongs to C02/C08/C09/C11/C19; a non-linear (GCP) GeoBox as operand of enclosing/project; the axis-aligned "
-    "world-coordinate tightness of enclosing (< 1 pixel size per side) is an oracle, the theorem is stated in pixel space.",
+    "which belongs to C02/C08/C09/C11/C19; GCPGeoBox.project / GCPGeoBox's own views (C02).",
     "technique": "Lean 4 proof over hand model + exhaustive/random differential correspondence with real code",
     "design_ref": "DESIGN.md §4 C16",
 }
@@ -1251,14 +1261,17 @@ def run(R: Run):
             # associativity / order independence on the real objects
             try:
                 a, b, c = gs[:3]
+                import functools
+                import operator
+
                 if op == "union":
                     l, r = (a | b) | c, a | (b | c)
                     perm = fn([gs[-1]] + gs[:-1])
-                    fold = res[0] if k > 3 else l
+                    fold = functools.reduce(operator.or_, gs)      # theorem reduce_or_eq_union
                 else:
                     l, r = (a & b) & c, a & (b & c)
                     perm = fn([gs[-1]] + gs[:-1])
-                    fold = res[0] if k > 3 else l
+                    fold = functools.reduce(operator.and_, gs)     # theorem reduce_and_eq_inter
                 okA = same_gbox(l, r)
                 # n-ary == folded binary (k = 3); any reference gives the same geobox
                 okN = same_gbox(fold, res[0]) and same_gbox(perm, res[0])
@@ -1540,6 +1553,7 @@ def run(R: Run):
     import sys
 
     EXT.run_ext(R, sys.modules[__name__], bases, stats)
+    EXT.run_ext3(R, sys.modules[__name__], bases, stats)
 
     # ---------------------------------------------------------------- I. float stream (oracle only)
     float_stream(R, oracle, stats)
